@@ -92,13 +92,13 @@ theorem agrees_with_synchronous (F c c' : Cfg) (ls ls' : List Label) (hF : allId
     rootData c = rootData c' ∧ nulledF [] 0 c = nulledF [] 0 c' :=
   assignment_independent F (syncOf F) c c' ls ls' hF (allIdle_syncOf F hF) (shape_syncOf F).symm r f r' f'
 
-/-- C03-3 `async_wf_partial`. In every final response: (a) no `null` sits at a non-null position
+/-- C03-3 `async_wf`. In every final response: (a) no `null` sits at a non-null position
 (`wfVals`), (b) every nulled position holds `null` in `data`, (c) `data` is `null` only if an
 error reached the root through non-null positions only, and then the root is the one nulled
 position. (The model records the positions where errors are handled, not the paths where they
 originate; an error path is at or below its handling position by construction, and a handling
-position that is not in `data` lies below one that is — that last step is the clause of `async_wf_full` that is not proved.) -/
-theorem async_wf_partial (F c : Cfg) (ls : List Label) (hF : allIdle F = true)
+position that is not in `data` lies below one that is — that last step is `async_wf_error_paths` below.) -/
+theorem async_wf (F c : Cfg) (ls : List Label) (hF : allIdle F = true)
     (hrun : Run (Step false) (initQuery F) ls c) (hfin : Final (Step false) c) :
     (∀ v, rootData c = some v → v ≠ .null → wfVals F v) ∧
     (∀ p ∈ nulledF [] 0 c, ∃ q, p = 0 :: q ∧
@@ -136,14 +136,40 @@ theorem async_wf_partial (F c : Cfg) (ls : List Label) (hF : allIdle F = true)
       simp [dataOf, hden] at hnull
       exact absurd hnull this
 
-/-- The clause of `async_wf` that `async_wf_partial` lacks: clause (b) for *every* position at which an error was handled
-or raised, also those that are not in `data` (below another nulled position); not proved. -/
-def async_wf_full : Prop :=
-  ∀ (F c : Cfg) (ls : List Label), allIdle F = true → Run (Step false) (initQuery F) ls c →
-    Final (Step false) c →
-    ∀ (q : Path) (nn : Bool) (res : Res) (st : NodeSt) (ch : Cfg),
-      nodeAt c (0 :: q) = some (nn, res, st, ch) → (st = .doneErr ∨ st = .failed) →
-      ∃ q' v, q' <+: q ∧ rootData c = some v ∧ v.at q' = some .null
+/-- C03-3d `async_wf_error_paths`. Every error path ends at or below a `null` in `data`: in
+a final configuration, for *every* position at which an error originated, was raised to the
+parent (`failed`) or was handled (`doneErr`) — also those that are not in `data` because they
+lie below another nulled position — some prefix of the position holds `null` in `data`.
+(An error path of the response is the position of the node where the error originated; such a
+node is `failed` or `doneErr`.) -/
+theorem async_wf_error_paths (F c : Cfg) (ls : List Label) (hF : allIdle F = true)
+    (hrun : Run (Step false) (initQuery F) ls c) (hfin : Final (Step false) c)
+    (q : Path) (nn : Bool) (res : Res) (st : NodeSt) (ch : Cfg)
+    (hp : nodeAt c (0 :: q) = some (nn, res, st, ch)) (hst : st = .doneErr ∨ st = .failed) :
+    ∃ q' v, q' <+: q ∧ rootData c = some v ∧ v.at q' = some .null := by
+  obtain ⟨g, st0, F', hc, _, hlive, hinv⟩ := run_root hF hrun
+  subst hc
+  have hq := stuck_quiet _ false hinv hfin
+  obtain ⟨hn, hc', _⟩ := hinv
+  cases st0 with
+  | idle => simp [NodeSt.live] at hlive
+  | cancelled => simp [NodeSt.live] at hlive
+  | wait k => simp [topQuiet, NodeSt.active] at hq
+  | ready => simp [topQuiet, NodeSt.active] at hq
+  | run => simp [topQuiet, NodeSt.active] at hq
+  | failed => simp [InvN] at hn
+  | doneErr => exact ⟨[], .null, List.nil_prefix, rfl, rfl⟩
+  | done v =>
+    simp only [InvN] at hn
+    have hfv := hn.2.2.1 ⟨false, rfl⟩
+    cases q with
+    | nil =>
+      simp [nodeAt] at hp
+      rcases hst with h | h <;> simp [h] at hp
+    | cons j p =>
+      simp only [nodeAt] at hp
+      obtain ⟨r, hr1, hr2⟩ := errpos_null F' v j p nn res st ch hc' hfv hp hst
+      exact ⟨j :: r, v, by simpa using hr1, rfl, hr2⟩
 
 /-- C03-4 `mutation_serial` (state form). In every configuration reachable by a serial root:
 completed root fields come first, then at most one root field that is in progress or has
@@ -263,7 +289,13 @@ theorem exFinal_final : Final (Step false) exFinal := by
   have : Gql.Async.measure exFinal = 0 := by decide
   omega
 
-/-- the hypotheses of `schedule_independent`, `async_wf_partial`, `async_invariant` hold for
+/-- `async_wf_error_paths` on the example: the error originates at `a.x` (position `[0,0,0]`,
+state `failed`), which is not in `data`; its prefix `a` holds `null`. -/
+example : ∃ q' v, q' <+: [0, 0] ∧ rootData exFinal = some v ∧ v.at q' = some .null :=
+  async_wf_error_paths exF exFinal _ (by decide) exRun exFinal_final [0, 0] true .raise .failed .nil
+    (by decide) (Or.inr rfl)
+
+/-- the hypotheses of `schedule_independent`, `async_wf`, `async_invariant` hold for
 this run, and the conclusion is the non-trivial response `{a: null}` with `a` nulled -/
 example : rootData exFinal = some (.cons .null .nil) ∧ nulledF [] 0 exFinal = [[0, 0]] :=
   schedule_independent exF exFinal _ (by decide) exRun exFinal_final |>.imp (fun h => by rw [h]; decide) (fun h => by rw [h]; decide)
